@@ -228,6 +228,11 @@ def strtol (s0 : List Char) : Int × List Char :=
   let v : Nat := ds.foldl (fun a c => a * 10 + (c.toNat - 48)) 0
   ((if neg then -(v : Int) else v), r.drop ds.length)
 
+/-- the end of `snarf_shift`: values beyond what the README allows make the whole SHIFT void, else
+`(d << 16) ^ (b << 2) ^ sem` on ints -/
+def packShift (d b : Int) (sem : Nat) : Int :=
+  if d > 366 ∨ d < -366 ∨ b > 366 ∨ b < -366 then 0 else xor32 (xor32 (d * 65536) (b * 4)) sem
+
 /-- state of the parse: sem bits, b, d -/
 def snarfShiftGo : Nat → List Char → Nat → Int → Int → Int
   | 0, _, _, _, _ => 0
@@ -236,7 +241,7 @@ def snarfShiftGo : Nat → List Char → Nat → Int → Int → Int
     let neg0 : Bool := spec.head? = some '-'
     match rest with
     | [] =>               -- `*spec++` reads the terminating NUL: `case '\0'`: a plain day count ends the text
-      xor32 (xor32 ((d + tmp) * 65536) (b * 4)) sem
+      packShift (d + tmp) b sem
     | c :: rest' =>
       if c = 'b' ∨ c = 'B' then
         -- the `again` loop over the suffix characters
@@ -261,9 +266,9 @@ def snarfShiftGo : Nat → List Char → Nat → Int → Int → Int
             let sem := sem ||| ((if b = 0 then 1 else 0) <<< 1)
             let b := if b ≥ 0 then b else -b
             -- `(d << 16) ^ (b << 2) ^ sem` on ints
-            xor32 (xor32 (d * 65536) (b * 4)) sem
+            packShift d b sem
       else if c = ',' then snarfShiftGo fuel rest' sem b (d + tmp)
-      else if c = ';' then xor32 (xor32 ((d + tmp) * 65536) (b * 4)) sem
+      else if c = ';' then packShift (d + tmp) b sem
       else 0
 
 /-- `snarf_shift(spec)`; the result is the C `int` (two's complement, 32 bit) -/
